@@ -31,7 +31,7 @@ fn spec(t: Tier) -> Spec {
     Spec {
         id: "C15",
         level: "exploration",
-        rule: format!("(A) for kind in {{a,c,m}} x period in {{60 s, 86400 s}} x k in {:?} (and, with operands 0, 1, k-2..k+2, 2^31 only, the large k {:?} days / {:?} minutes: whole seconds above 2^24, 2^31, 2^32) x age in {{k*P-1s, k*P-1ns, k*P, k*P+1ns, k*P+1s}} (>=0) x sub-second phase of the timestamp in {:?}: the injected now() is set to (timestamp read back by lstat) + age, the two other timestamps of the file sit in other periods, a second file is one period older; every N in 0..k+2 (and 2^31) x forms N,+N,-N of the matching -Xtime / -Xmin primary is evaluated by the real find; expected = floor(age/P) ==,>,< N. (B) entry/reference pairs built so that entry.X - reference.Y is -1s,-1ns,0,+1ns,+1s for each (X,Y) in {{a,c,m}}^2 (c by ordering real metadata changes and reading back; equality of c via a hard link), at two placements (about 1000 days before/after the status-change times; for pairs not involving c also in 1969 and 1931, i.e. negative seconds with a sub-second part) and {} base phases; on every pair ALL of -newer, -anewer, -cnewer and the nine -newerXY are evaluated; expected = entry.X > reference.Y at nanosecond resolution from lstat() read back. (D) under TZ=GMT0BST,M3.5.0/1,M10.5.0 and EST5EDT (daylight-saving rules), file and now() on either side of a 2026 switch, ages of k days (or the matching minutes) plus 30 min / 23 h 30 min: -mtime/-atime/-mmin/-amin N,+N,-N around k — an age is elapsed time. Files stamped 1960, 1969-12-31T23:59:30 and 1931 with now() 22 000-25 000 days / 32 000 000 minutes later. (C) one run of the find binary against the real clock: an earlier starting point runs `sleep 4` (no time test is evaluated before that: they are guarded by -path 's2/*', so a clock read lazily at the first time test shows too), entries that were 56 s / one day minus 4 s old when find started are visited afterwards and must still count as 0 minutes / 0 days old (now fixed at start). (E) references whose names begin or end with blanks (ASCII, U+00A0, U+2003, U+3000), a tab or a newline, stamped 2020, next to a look-alike without them stamped 2010, entry stamped 2015: -newer/-anewer/-newermm/-neweram/-newerma false. (F) a file whose path exceeds PATH_MAX under an earlier starting point: the entries after it and a later starting point are still tested on their own timestamps (eight spellings). evaluation = (file, primary, operand); non-trivial = age within 1 s of a period boundary (A) / the pair's controlled difference concerns that primary's X,Y (B)", ks(t), big_ks(t, DAY), big_ks(t, 60), phases(t), phases(t).len()),
+        rule: format!("(A) for kind in {{a,c,m}} x period in {{60 s, 86400 s}} x k in {:?} (and, with operands 0, 1, k-2..k+2, 2^31 only, the large k {:?} days / {:?} minutes: whole seconds above 2^24, 2^31, 2^32) x age in {{k*P-1s, k*P-1ns, k*P, k*P+1ns, k*P+1s}} (>=0) x sub-second phase of the timestamp in {:?}: the injected now() is set to (timestamp read back by lstat) + age, the two other timestamps of the file sit in other periods, a second file is one period older; every N in 0..k+2 (and 2^31) x forms N,+N,-N of the matching -Xtime / -Xmin primary is evaluated by the real find; expected = floor(age/P) ==,>,< N. (B) entry/reference pairs built so that entry.X - reference.Y is -1s,-1ns,0,+1ns,+1s for each (X,Y) in {{a,c,m}}^2 (c by ordering real metadata changes and reading back; equality of c via a hard link), at two placements (about 1000 days before/after the status-change times; for pairs not involving c also in 1969 and 1931, i.e. negative seconds with a sub-second part) and {} base phases; on every pair ALL of -newer, -anewer, -cnewer and the nine -newerXY are evaluated; expected = entry.X > reference.Y at nanosecond resolution from lstat() read back. (D) under TZ=GMT0BST,M3.5.0/1,M10.5.0 and EST5EDT (daylight-saving rules), file and now() on either side of a 2026 switch, ages of k days (or the matching minutes) plus 30 min / 23 h 30 min: -mtime/-atime/-mmin/-amin N,+N,-N around k — an age is elapsed time. Files stamped 1960, 1969-12-31T23:59:30 and 1931 with now() 22 000-25 000 days / 32 000 000 minutes later. (C) one run of the find binary against the real clock: an earlier starting point runs `sleep 4` (no time test is evaluated before that: they are guarded by -path 's2/*', so a clock read lazily at the first time test shows too), entries that were 56 s / one day minus 4 s old when find started are visited afterwards and must still count as 0 minutes / 0 days old (now fixed at start). (E) references whose names begin or end with blanks (ASCII, U+00A0, U+2003, U+3000), a tab or a newline, stamped 2020, next to a look-alike without them stamped 2010, entry stamped 2015: -newer/-anewer/-newermm/-neweram/-newerma false. (F) a file whose path exceeds PATH_MAX under an earlier starting point: the entries after it and a later starting point are still tested on their own timestamps (eight spellings). removed-entry slice: an entry removed by an earlier -exec rm in the same expression before the test looks at it: standard output is exactly the entries the test selects (the diagnostic belongs on standard error). evaluation = (file, primary, operand); non-trivial = age within 1 s of a period boundary (A) / the pair's controlled difference concerns that primary's X,Y (B)", ks(t), big_ks(t, DAY), big_ks(t, 60), phases(t), phases(t).len()),
         bound: json!({"k": ks(t), "periods": [60, 86400], "deltas_ns": [-1_000_000_000i64, -1, 0, 1, 1_000_000_000i64], "xy": "a,c,m squared + -newer -anewer -cnewer"}),
         assumptions: vec![
             "-daystart, -newerXt, -newerB?, negative ages are outside the statement".into(),
